@@ -63,7 +63,7 @@ def lemma(name, **opts):
     return deco
 
 
-def spec(fn=None, recursive=False, reads=(), returns='val', unfold=1):
+def spec(fn=None, recursive=False, reads=(), returns='val', unfold=1, kind=None, facts=None):
     """Mark a SpecPy function.  ``recursive`` functions become uninterpreted
     symbols (of result sort ``returns``: 'val' | 'bool' | 'outcome') unfolded
     ``unfold`` level(s) deep at the terms that occur."""
@@ -73,6 +73,8 @@ def spec(fn=None, recursive=False, reads=(), returns='val', unfold=1):
         f._reads = tuple(reads)
         f._returns = returns
         f._unfold = unfold
+        f._result_kind = kind
+        f._facts = facts          # SpecPy predicate over (args..., result): a lemma about the function
         return f
     if fn is not None:
         return deco(fn)
